@@ -369,6 +369,10 @@ func body(r *vlib.Run) {
 
 	// Mode 2: random long histories over {a,b,c,*}, depth <= 4.
 	names := []string{"a", "b", "c"}
+	// Element names of which one is a prefix of another and continues with a
+	// byte on either side of '/', '\x00' and ':' (eth0 / eth0.100 / eth0-1 ...):
+	// lexicographic order is by ELEMENT lists, not by any joined string.
+	relNames := []string{"a", "a.", "a-b", "a+", "a0", "a/b", "a\x00", "a:b", "", "b"}
 	randPath := func(rng *rand.Rand, glob bool, maxDepth int) []string {
 		n := rng.Intn(maxDepth + 1)
 		p := make([]string, n)
@@ -385,6 +389,11 @@ func body(r *vlib.Run) {
 		return p
 	}
 	r.ForTrials("random", r.N(6000, 250000), func(trial int, rng *rand.Rand) {
+		names = []string{"a", "b", "c"}
+		if trial%4 == 3 {
+			names = relNames
+			r.Count("random_histories_with_prefix_related_names", 1)
+		}
 		n := 10 + rng.Intn(71)
 		depth := 2 + rng.Intn(3)
 		if trial%5 == 0 {
@@ -434,13 +443,93 @@ func body(r *vlib.Run) {
 			r.Sample(map[string]interface{}{"mode": "random", "trial": trial, "first_ops": strs, "len": n})
 		}
 	})
+	modeValues(r)
+}
+
+// modeValues: the tree is a map to arbitrary values. Values of a dynamic type
+// that Go cannot compare with == (slices, maps, structs holding them) are
+// stored, overwritten through Add and through a leaf handle, looked up, walked
+// and deleted; every step must return without panicking and read back exactly
+// what was stored.
+func modeValues(r *vlib.Run) {
+	type rec struct {
+		Tags []string
+		N    int
+	}
+	mk := func(rng *rand.Rand, id int) interface{} {
+		switch rng.Intn(5) {
+		case 0:
+			return []int{id, id + 1}
+		case 1:
+			return map[string]int{"id": id}
+		case 2:
+			return rec{Tags: []string{fmt.Sprint(id)}, N: id}
+		case 3:
+			return []interface{}{id, []string{"x"}}
+		default:
+			return id
+		}
+	}
+	r.ForTrials("values", r.N(2000, 40000), func(trial int, rng *rand.Rand) {
+		t := &ctree.Tree{}
+		want := map[string]interface{}{}
+		names := []string{"a", "b", "c"}
+		var log []string
+		defer func() {
+			if x := recover(); x != nil {
+				r.Violation("values", trial, "panic:uncomparable-value", fmt.Sprintf("panic %v after %v", x, log), map[string]interface{}{"ops": log})
+			}
+		}()
+		for i := 0; i < 30; i++ {
+			p := []string{names[rng.Intn(3)], names[rng.Intn(3)]}
+			k := model.Key(p)
+			v := mk(rng, trial*100+i)
+			switch rng.Intn(5) {
+			case 0, 1:
+				log = append(log, fmt.Sprintf("Add(%v, %T)", p, v))
+				if err := t.Add(p, v); err != nil {
+					r.Violation("values", trial, "values:add-rejected", fmt.Sprintf("Add(%v) of a %T rejected: %v", p, v, err), nil)
+					return
+				}
+				want[k] = v
+			case 2:
+				if l := t.GetLeaf(p); l != nil {
+					log = append(log, fmt.Sprintf("Leaf(%v).Update(%T)", p, v))
+					l.Update(v)
+					want[k] = v
+					// the same value once more (an "unchanged" update)
+					l.Update(v)
+				}
+			case 3:
+				log = append(log, fmt.Sprintf("Delete(%v)", p))
+				t.Delete(p)
+				delete(want, k)
+			default:
+				log = append(log, fmt.Sprintf("Get(%v)", p))
+				got := t.GetLeafValue(p)
+				if w, ok := want[k]; ok != (got != nil) || (ok && !reflect.DeepEqual(got, w)) {
+					r.Violation("values", trial, "values:readback", fmt.Sprintf("GetLeafValue(%v) = %v, stored %v (present %v) after %v", p, got, w, ok, log), nil)
+					return
+				}
+			}
+			r.Count("values_steps", 1)
+		}
+		got := map[string]interface{}{}
+		t.WalkSorted(func(p []string, _ *ctree.Leaf, v interface{}) error { got[model.Key(p)] = v; return nil })
+		r.Eval(1)
+		if !reflect.DeepEqual(got, want) {
+			r.Violation("values", trial, "values:content", fmt.Sprintf("the tree holds %v, stored were %v after %v", got, want, log), nil)
+			return
+		}
+		r.Distinct(vlib.Hash("values", fmt.Sprint(log)))
+	})
 }
 
 func main() {
 	vlib.Main(&vlib.Spec{
 		ID: "C09",
 		Rule: "exhaustive: every sequence of <= 4 (thorough 5) operations over an alphabet of 24 operations (Add at 6 paths incl. the root and one with an element literally named '*', Delete/DeleteConditional at 7 wildcard paths, WalkDeleted at 4) with the whole tree, 9 wildcard queries and 7 point lookups compared with the model after every step; " +
-			"random: seeded histories of 10-80 operations over {a,b,c,*} to depth 4 incl. updates through live leaf handles. A history is counted as distinct non-trivial when it contains a successful add and (a delete that removed something or a rejected add) [random: all three], hashed by its operation list.",
+			"random: seeded histories of 10-80 operations over {a,b,c,*} to depth 4 incl. updates through live leaf handles, a quarter of them over element names of which one is a prefix of another and continues with a byte below or above '/' (a, a., a-b, a+, a0, a/b, a\\x00, a:b, the empty name), which separates element-wise lexicographic order from any joined-string order; mode values: 30-step histories storing values of uncomparable dynamic types (slices, maps, structs holding slices) through Add and Leaf.Update (also twice with the same value), read back with DeepEqual, any panic is a violation. A history is counted as distinct non-trivial when it contains a successful add and (a delete that removed something or a rejected add) [random: all three], hashed by its operation list.",
 		Assumptions: []string{
 			"model.Tree (prefix-free map; MatchQ with one trailing glob past a leaf) is the specification",
 			"GetLeaf on a branch path returns the branch node (the cache's collision check and its unit test rely on it); the oracle only requires nil for paths that do not exist at all",
